@@ -1616,6 +1616,33 @@ fn run_r4(ctx: &mut Ctx, keys: &[&K]) {
             s.fp_body = Some(body.clone());
             let r = run_sig_paths(k, &s, thorough);
             judge_paths(ctx, "R4", case, k, r, false, json!({"issuer_fp_subpacket": hexs(&body)}));
+            // several issuer fingerprint subpackets: every one of them has to match the signature version,
+            // whatever its position (matching one first / last, mismatching one in front, behind or between)
+            let good = [vec![k.v], k.fp.clone()].concat();
+            let orders: [(&str, Vec<&[u8]>); 4] = [
+                ("good-then-bad", vec![&good, &body]),
+                ("bad-then-good", vec![&body, &good]),
+                ("good-bad-good", vec![&good, &body, &good]),
+                ("good-good-bad", vec![&good, &good, &body]),
+            ];
+            for (oname, seq) in orders {
+                let mut s = Scn::plain(sv);
+                s.issuer_kid = true;
+                s.fp_body = Some(seq[0].to_vec());
+                s.extra = seq[1..].iter().flat_map(|b| sp(33, false, b)).collect();
+                let r = run_sig_paths(k, &s, thorough);
+                ctx.cover(&("R4fp-multi", oname, sv));
+                judge_paths(ctx, "R4", &format!("{case}/{oname}"), k, r, false, json!({"issuer_fp_subpackets": seq.iter().map(|b| hexs(b)).collect::<Vec<_>>()}));
+            }
+        }
+        // control: two matching issuer fingerprint subpackets are fine
+        {
+            let good = [vec![k.v], k.fp.clone()].concat();
+            let mut s = Scn::plain(sv);
+            s.issuer_kid = true;
+            s.extra = sp(33, false, &good);
+            let r = run_sig_paths(k, &s, thorough);
+            judge_paths(ctx, "R4", "control-issuer-fp-twice", k, r, true, json!({}));
         }
     }
 }
